@@ -290,6 +290,38 @@ def run_running(case) -> dict:
     return {"problems": problems[:5], **info}
 
 
+ORIGIN_KINDS = ["coroutine", "generator", "asyncgen", "other", "othernw", "none"]
+
+
+def run_better_origin(case) -> str:
+    """_extract.better_origin on one object of each kind x each kind of fallback, against the Lean function."""
+    from stackscope import _extract
+
+    async def co():
+        pass
+
+    def ge():
+        yield
+
+    async def ag():
+        yield
+
+    class Other:
+        pass
+
+    objs = {"coroutine": co(), "generator": ge(), "asyncgen": ag(), "other": Other(), "othernw": [1, 2], "none": None}
+    fbs = {"coroutine": co(), "generator": ge(), "asyncgen": ag(), "other": Other(), "othernw": [3, 4], "none": None}
+    out = []
+    try:
+        for c, f in case["pairs"]:
+            r = _extract.better_origin(objs[c], fbs[f])
+            out.append("c" if r is objs[c] else "f" if r is fbs[f] else "?")
+    finally:
+        objs["coroutine"].close()
+        fbs["coroutine"].close()
+    return " ".join(out)
+
+
 def run_overlap(case) -> dict:
     """extract_outermost(x) = extract(x).frames[0] also while ANOTHER thread is in the middle of an extraction with the opposite
     options, the two overlapping non-LIFO (the other one starts after this one and ends after it): forced with events."""
@@ -363,7 +395,7 @@ class C16(PropCheck):
             "coroutine / async generator probed from callees at depth 0-3, thread, greenlet, hidden outermost frames; "
             "non-trivial = some frame has a non-None origin or extract_outermost raises; distinct = distinct case")
     manifest = {
-        "text": "Lean: C16_origin_is_owner (every emitted frame's origin, if any, is a generator-like object whose own frame is that frame — an invariant of the whole run), C16_outermost_head (extract_outermost's model returns exactly the head of extract's frames, with identical flags, and raises exactly when there are none: the recorded error alone, the group, or the no-frame RuntimeError), C16_origin_roundtrip (for a well-formed generator-like origin o whose unwrap starts with its own frame, extract_outermost(o) returns that frame). Tie: model vs real extract / extract_outermost on generated environments; oracle on real chains and running targets.",
+        "text": "Lean: C16_better_origin_source (the type list and the condition of better_origin, re-read from the source on every run), C16_better_origin (a generator-like object being looked into always becomes the origin; anything else replaces only a fallback that is not generator-like; an object that cannot be weakly referenced never does) and C16_better_origin_slips (two slips seeded changes made there); the real better_origin is diffed with the model on every pair of kinds. C16_origin_is_owner (every emitted frame's origin, if any, is a generator-like object whose own frame is that frame — an invariant of the whole run), C16_outermost_head (extract_outermost's model returns exactly the head of extract's frames, with identical flags, and raises exactly when there are none: the recorded error alone, the group, or the no-frame RuntimeError), C16_origin_roundtrip (for a well-formed generator-like origin o whose unwrap starts with its own frame, extract_outermost(o) returns that frame). Tie: model vs real extract / extract_outermost on generated environments; oracle on real chains and running targets.",
         "note": "Frames obtained through a running generator's StackSlice are real interpreter state: leg B is judged by the oracle on the implementation, the model covers suspended (static) environments. weakref-ability and identity are modelled as env tables.",
     }
     assumptions = ["generator-like objects unwrap to (own frame, delegate) as the built-in glue does for suspended ones"]
@@ -399,6 +431,7 @@ class C16(PropCheck):
         for nk in (1, 2, 4):
             for wrapped in (False, True):
                 out.append({"k": "taskset", "nkids": nk, "wrapped": wrapped})
+        out.append({"k": "better_origin", "pairs": [[c, f] for c in ORIGIN_KINDS if c != "none" for f in ORIGIN_KINDS]})
         for wc in (True, False):
             for first in ("outermost", "extract"):
                 out.append({"k": "overlap", "with_contexts": wc, "first": first})
@@ -416,6 +449,8 @@ class C16(PropCheck):
         return out
 
     def model_line(self, case):
+        if case["k"] == "better_origin":
+            return json.dumps({"p": "C16", "mode": "better_origin", "pairs": case["pairs"]})
         if case["k"] != "env":
             return None
         d = dict(case)
@@ -458,6 +493,8 @@ class C16(PropCheck):
             return chains.run_origin_case(case)
         if case["k"] == "overlap":
             return run_overlap(case)
+        if case["k"] == "better_origin":
+            return run_better_origin(case)
         raise ValueError(case["k"])
 
     def canon(self, case, real):
@@ -479,6 +516,8 @@ class C16(PropCheck):
                 return s
             return None
         if isinstance(real, dict) and real.get("with_origin", 0) > 0:
+            return s
+        if case["k"] == "better_origin":
             return s
         return None
 
